@@ -19,7 +19,16 @@ CHECKS["C01"] = dict(
           "TestC01FastAggregate focuses the same oracle on Fast-HotStuff with frequent timeouts and an actor that replays old "
           "aggregate QCs, withholds / releases proposals and equivocates after view changes. TestC01TwinsEnumerated runs ALL "
           "scenarios of the repository's own Twins generator for 4 replicas, 1 twin pair, 2 partitions and 3 views (5,832; quick) / "
-          "4 views (104,976; thorough) x 3 rulesets x 1 / 3 non-lock-step delivery schedules (exhaustive in the scenario dimension)."),
+          "4 views (104,976; thorough) x 3 rulesets x 1 / 3 non-lock-step delivery schedules (exhaustive in the scenario dimension). "
+          "TestC01LeaderStrategies*: a Byzantine replica leads EVERY view and plays a strategy: after 1..3 honest-looking views, per "
+          "strategic view one of 30 moves (the new block extends the newest / 2nd / 3rd newest certified block the leader holds a "
+          "genuine certificate for, assembled from the honest votes it collected plus its own; shown to everybody / the victim group / "
+          "the others, or two blocks on different certificates for the two groups; before or after the receivers' view timers fired; "
+          "for Fast-HotStuff with an aggregate QC of the previous view built by an honest replica or by the leader from any quorum of "
+          "that view's timeout messages), every view ends with the honest timers firing, then chain-length+1 closing views for "
+          "everybody or for the non-victims. ALL strategies of 2 (quick: 16,200 runs) / 3 (thorough: 486,000 runs) strategic views "
+          "x 3 warm-ups x 2 closings x 3 rulesets at n=4 are enumerated; strategies of 3..6 views at n in {4,7} are sampled. "
+          "Non-trivial there = two conflicting blocks were certified and some honest replica committed."),
     assumptions=["the simulator's sender/clock/crypto-tap edges and the fast keyed-hash base are trusted",
                  "schedules are sampled; n limited to {4,7}; the event-queue overflow of production (capacity 100) is not modelled"],
 )
